@@ -1056,3 +1056,104 @@ V("C10", "C10.R6", "c10-allocatable-wrong-len", "shroud/statements.py",
         ],
         post_call=[
             "allocate(character(len={c_var_context}%size):: {f_var})",''', "fire", "allocate")
+
+# ---------------------------------------------------------------------------
+# C06
+# ---------------------------------------------------------------------------
+V("C06", "C06.R1", "c06-free-wrong-variable", "shroud/statements.py",
+  '''        c_helper="ShroudStrAlloc ShroudStrFree",
+        pre_call=[
+            "char * {cxx_var} = ShroudStrAlloc(\\t"
+            "{c_var},\\t {c_var_trim},\\t {c_var_trim});",
+        ],
+        post_call=[
+            "ShroudStrFree({cxx_var});"''',
+  '''        c_helper="ShroudStrAlloc ShroudStrFree",
+        pre_call=[
+            "char * {cxx_var} = ShroudStrAlloc(\\t"
+            "{c_var},\\t {c_var_trim},\\t {c_var_trim});",
+        ],
+        post_call=[
+            "ShroudStrFree({c_var});"''', "fire", "c_char_*_in_buf")
+V("C06", "C06.R1", "c06-array-free-count", "shroud/statements.py",
+  '"ShroudStrArrayFree({cxx_var}, {c_var_size});",', '"ShroudStrArrayFree({cxx_var}, {c_var_len});",',
+  "fire", "c_char_**_in_buf")
+V("C06", "C06.R2", "c06-destructor-wrong-type", "shroud/statements.py",
+  '''        destructor_name="new_string",
+        destructor=[
+            "std::string *cxx_ptr = \\treinterpret_cast<std::string *>(ptr);",
+            "delete cxx_ptr;",
+        ],
+        post_call=[
+            "ShroudStrToArray({c_var_context}, {cxx_var}, {idtor});",''',
+  '''        destructor_name="new_string",
+        destructor=[
+            "std::vector<char> *cxx_ptr = \\treinterpret_cast<std::vector<char> *>(ptr);",
+            "delete cxx_ptr;",
+        ],
+        post_call=[
+            "ShroudStrToArray({c_var_context}, {cxx_var}, {idtor});",''', "fire", "c_string_scalar_result_buf_allocatable")
+V("C06", "C06.R2", "c06-idtor-not-stored", "shroud/statements.py",
+  '''        name="c_vector_result_buf",
+        buf_args=["context"],
+        cxx_local_var="pointer",
+        c_helper="ShroudTypeDefines",
+        pre_call=[
+            "{c_const}std::vector<{cxx_T}>"
+            "\\t *{cxx_var} = new std::vector<{cxx_T}>;"
+        ],
+        post_call=[
+            # Return address and size of vector data.
+            "{c_var_context}->cxx.addr  = {cxx_var};",
+            "{c_var_context}->cxx.idtor = {idtor};",''',
+  '''        name="c_vector_result_buf",
+        buf_args=["context"],
+        cxx_local_var="pointer",
+        c_helper="ShroudTypeDefines",
+        pre_call=[
+            "{c_const}std::vector<{cxx_T}>"
+            "\\t *{cxx_var} = new std::vector<{cxx_T}>;"
+        ],
+        post_call=[
+            # Return address and size of vector data.
+            "{c_var_context}->cxx.addr  = {cxx_var};",
+            "{c_var_context}->cxx.idtor = 0;",''', "fire", "c_vector_result_buf")
+V("C06", "C06.R3", "c06-slot0-after-wrapping", "shroud/wrapc.py",
+  '''        self.add_capsule_code("--none--", None, ["// Nothing to delete"])
+        self.wrap_namespace(newlibrary.wrap_namespace, True)''',
+  '''        self.wrap_namespace(newlibrary.wrap_namespace, True)
+        self.add_capsule_code("--none--", None, ["// Nothing to delete"])''', "fire", "slot0-first")
+V("C06", "C06.R3", "c06-idtor-without-dtor", "shroud/wrapc.py",
+  '''        else:
+            ntypemap.idtor = "0"
+
+    def wrap_enum(self, cls, node):''',
+  '''        else:
+            ntypemap.idtor = "1"
+
+    def wrap_enum(self, cls, node):''', "fire", "compute_idtor")
+V("C06", "C06.R4", "c06-release-not-idempotent", "shroud/wrapc.py",
+  '''                      "cap->addr = {nullptr};\\n"
+                      "cap->idtor = 0;  // avoid deleting again\\n"''',
+  '''                      "cap->addr = {nullptr};\\n"''', "fire", "write_capsule_code:reset")
+V("C06", "C06.R4", "c06-shadow-dtor-keeps-handle", "shroud/statements.py",
+  '''            "delete {CXX_this};",
+            "{C_this}->addr = {nullptr};",''',
+  '''            "delete {CXX_this};",''', "fire", "c_shadow_dtor")
+V("C06", "C06.R4", "c06-fortran-delete-no-release", "shroud/whelpers.py",
+  '''class({F_capsule_type}) :: cap
+call {__helper}(cap%mem)''',
+  '''class({F_capsule_type}) :: cap''', "fire", "capsule_helper")
+V("C06", "C06.R5", "c06-helper-overflow", "shroud/whelpers.py",
+  "   char *rv = malloc(nsrc + 1);", "   char *rv = malloc(nsrc);", "fire", "ShroudStrAlloc")
+V("C06", "C06.R6", "c06-ctor-dataobj-dropped", "shroud/wrapp.py",
+  '''            "self->{PY_member_data} = {value_var}.dataobj;"
+            "  // steal reference",
+        ],
+    ),
+    dict(
+        # Fill an array struct member.''',
+  '''        ],
+    ),
+    dict(
+        # Fill an array struct member.''', "fire", "dataobj")
